@@ -156,7 +156,7 @@ Lemma auth_none_ok : forall s c c' co,
   auth_none s c = (c', co) -> protected s c = false -> same c c' /\ ok s c'.
 Proof.
   intros s c c' co H Hp. unfold auth_none in H.
-  set (c1 := if ((7 <? c_minor c)%Z && negb (c_minor c =? 889)%Z)%bool then add_out c auth_ok else c) in *.
+  set (c1 := if ((7 <? c_minor c)%Z && negb (c_minor c =? 889)%Z)%bool then say c TokOK auth_ok else c) in *.
   assert (Hs : same c c1) by (unfold c1; destruct ((7 <? c_minor c)%Z && negb (c_minor c =? 889)%Z)%bool; split; reflexivity).
   assert (Hp1 : protected s c1 = false) by (rewrite (protected_same s c c1 Hs); exact Hp).
   destruct (c_minor c =? 889)%Z.
@@ -394,7 +394,7 @@ Proof. intros p [st|] H; exact H. Qed.
 
 Lemma step_inv : forall p o, inv p -> inv (step cfx p o).
 Proof.
-  intros p o Hinv. destruct o as [s|k|k|b|s rev bytes eof|c bytes eof|s content]; cbn [step].
+  intros p o Hinv. destruct o as [s|k|k|b|s rev bytes eof|c bytes eof|s content|s|s ubytes]; cbn [step].
   - unfold inv in *. cbn [p_screens p_conns]. eapply Forall_impl; [|exact Hinv].
     intros c Hc. apply conn_ok_more_screens. exact Hc.
   - destruct (is_ext k); [apply with_hs_inv|]; exact Hinv.
@@ -413,6 +413,9 @@ Proof.
       destruct Hok as [H1 H2]. split; [|exact H2]. intros Hp. apply H1.
       unfold protected, has_password in *. cbn [s_pw] in Hp. rewrite Hpw. exact Hp.
     + exists s0. split; [rewrite nth_error_set_nth_neq by congruence; exact Hs0|exact Hok].
+  - destruct (nth_error (p_screens p) s); exact Hinv.
+  - destruct (nth_error (p_screens p) s) as [scr|]; [|exact Hinv].
+    destruct (existsb (Nat.eqb s) (p_udp p) && udp_wellformed ubytes && negb (cfg_udp_gated (cfgF single ext tight) && has_password scr)); exact Hinv.
 Qed.
 
 Lemma run_inv : forall ops p, inv p -> inv (run cfx p ops).
@@ -755,7 +758,7 @@ Lemma step_frame : forall cf p o ci s scr c,
   acyc (p_hs p') = true /\ nth_error (p_screens p') s = Some scr /\ nth_error (p_conns p') ci = Some c.
 Proof.
   intros cf p o ci s scr c Hf Hb Hs Hn Hnn. cbv zeta.
-  destruct o as [s0|k|k|b|s0 rev bytes eof|cj bytes eof|s0 content]; cbn [step foreign] in *.
+  destruct o as [s0|k|k|b|s0 rev bytes eof|cj bytes eof|s0 content|s0|s0 ubytes]; cbn [step foreign] in *.
   - split; [exact Hb|]. split; [|exact Hn]. cbn [p_screens].
     rewrite nth_error_app1; [exact Hs|]. apply nth_error_Some. congruence.
   - destruct (is_ext k) eqn:Ek; [|repeat split; assumption].
@@ -764,7 +767,7 @@ Proof.
     destruct (acyc_unregister (cfg_unreg_single cf) (p_hs p) k Hb Ek) as [st' [-> Ha']]. cbn. repeat split; assumption.
   - repeat split; assumption.
   - destruct (nth_error (p_screens p) s0) as [scr0|]; [|repeat split; assumption].
-    set (p1 := mkProc (p_hs p) (p_screens p) (p_conns p ++ [new_conn s0 rev]) (p_rand p) (p_err p) (p_unmod p)).
+    set (p1 := mkProc (p_hs p) (p_screens p) (p_conns p ++ [new_conn s0 rev]) (p_rand p) (p_err p) (p_unmod p) (p_udp p) (p_input p)).
     assert (Hlt : (ci < length (p_conns p))%nat) by (apply nth_error_Some; congruence).
     destruct (deliver_frame (S (length bytes)) cf p1 (length (p_conns p)) bytes eof Hb) as [I1 [I2 I3]].
     split; [exact I1|]. split; [rewrite I2; exact Hs|].
@@ -778,6 +781,9 @@ Proof.
     destruct (s_pw scr0); try (repeat split; assumption).
     cbn [p_hs p_screens p_conns]. split; [exact Hb|]. split; [|exact Hn].
     rewrite nth_error_set_nth_neq by congruence. exact Hs.
+  - destruct (nth_error (p_screens p) s0); repeat split; assumption.
+  - destruct (nth_error (p_screens p) s0) as [scr0|]; [|repeat split; assumption].
+    match goal with |- context [if ?b then _ else _] => destruct b end; repeat split; assumption.
 Qed.
 
 Lemma run_frame : forall cf tr p ci s scr c,
@@ -797,17 +803,20 @@ Qed.
    is the world of all traces *)
 Lemma step_acyc : forall cf p o, acyc (p_hs p) = true -> acyc (p_hs (step cf p o)) = true.
 Proof.
-  intros cf p o Hb. destruct o as [s0|k|k|b|s0 rev bytes eof|cj bytes eof|s0 content]; cbn [step]; try exact Hb.
+  intros cf p o Hb. destruct o as [s0|k|k|b|s0 rev bytes eof|cj bytes eof|s0 content|s0|s0 ubytes]; cbn [step]; try exact Hb.
   - destruct (is_ext k) eqn:Ek; [|exact Hb].
     destruct (acyc_register (p_hs p) k Hb Ek) as [st' [-> Ha']]. exact Ha'.
   - destruct (is_ext k) eqn:Ek; [|exact Hb].
     destruct (acyc_unregister (cfg_unreg_single cf) (p_hs p) k Hb Ek) as [st' [-> Ha']]. exact Ha'.
   - destruct (nth_error (p_screens p) s0); [|exact Hb].
     apply (deliver_frame (S (length bytes)) cf
-             (mkProc (p_hs p) (p_screens p) (p_conns p ++ [new_conn s0 rev]) (p_rand p) (p_err p) (p_unmod p))
+             (mkProc (p_hs p) (p_screens p) (p_conns p ++ [new_conn s0 rev]) (p_rand p) (p_err p) (p_unmod p) (p_udp p) (p_input p))
              (length (p_conns p)) bytes eof Hb).
   - apply (deliver_frame (S (length bytes)) cf p cj bytes eof Hb).
   - destruct (nth_error (p_screens p) s0) as [scr0|]; [|exact Hb]. destruct (s_pw scr0); exact Hb.
+  - destruct (nth_error (p_screens p) s0); exact Hb.
+  - destruct (nth_error (p_screens p) s0) as [scr0|]; [|exact Hb].
+    match goal with |- context [if ?b then _ else _] => destruct b end; exact Hb.
 Qed.
 
 Lemma run_acyc : forall cf tr p, acyc (p_hs p) = true -> acyc (p_hs (run cf p tr)) = true.
@@ -911,7 +920,7 @@ Proof.
     - destruct (decrypt_passwd_file content) as [pw'|]; [|contradiction].
       destruct Hin as [<-|[]]. cbn [c_chal set_resp set_pws]. rewrite Hmatch. eexists. split; [reflexivity|]. repeat split. }
   destruct Hpc as [c1 [Hpc [O1 [O2 [O3 O4]]]]].
-  assert (Ho : on_message cfx scr (env_of p) c r = (env_of p, set_st (add_out c1 auth_ok) StInit, false)).
+  assert (Ho : on_message cfx scr (env_of p) c r = (env_of p, set_st (say c1 TokOK auth_ok) StInit, false)).
   { unfold on_message. rewrite Hst. unfold on_response. rewrite Hpc. reflexivity. }
   rewrite (deliver_one cfx p ci c scr r _ _ _ Hn Hs (or_intror (or_intror (or_introl Hst)))
              ltac:(rewrite Hst, Hr16; reflexivity) Ho eq_refl).
@@ -929,7 +938,7 @@ Lemma phase_init : forall p ci c scr b,
 Proof.
   intros p ci c scr b Hn Hs Hst. cbv zeta. rewrite step_send.
   assert (Ho : on_message cfx scr (env_of p) c [b] =
-               (env_of p, set_st (add_out c (server_init scr)) StNormal, negb (c_rev c) && N.eqb b 0)).
+               (env_of p, set_st (say c TokSInit (server_init scr)) StNormal, negb (c_rev c) && N.eqb b 0)).
   { unfold on_message. rewrite Hst. reflexivity. }
   rewrite (deliver_one cfx p ci c scr [b] _ _ _ Hn Hs (or_intror (or_intror (or_intror Hst)))
              ltac:(rewrite Hst; reflexivity) Ho eq_refl).
@@ -962,7 +971,7 @@ Lemma complete_fixed : forall p0 s scr pw ver mi tr1 tr2 tr3 b,
 Proof.
   intros p0 s scr pw ver mi tr1 tr2 tr3 b Hb Hext Hs Hpw Hin Hl Hv Hmi ci F1 F2 F3 p1 p2 ch p3 p4 r Hr p5 p6 p7.
   (* phase 1 *)
-  set (q := mkProc (p_hs p0) (p_screens p0) (p_conns p0 ++ [new_conn s false]) (p_rand p0) (p_err p0) (p_unmod p0)).
+  set (q := mkProc (p_hs p0) (p_screens p0) (p_conns p0 ++ [new_conn s false]) (p_rand p0) (p_err p0) (p_unmod p0) (p_udp p0) (p_input p0)).
   assert (Hp1 : p1 = step cfx q (OSend ci ver false)).
   { unfold p1. cbn [step]. rewrite Hs. reflexivity. }
   assert (Hq : nth_error (p_conns q) ci = Some (new_conn s false)).
@@ -1034,8 +1043,8 @@ Lemma viewonly_fixed : forall p ci c scr pws fvo r i,
 Proof.
   intros p ci c scr pws fvo r i Hn Hs Hpw Hst Hvo Hr Hi. cbv zeta. rewrite step_send.
   assert (Ho : on_message cfx scr (env_of p) c r =
-    (env_of p, set_st (add_out (if (fvo <=? i)%Z then set_vo (set_pws (set_resp c r) (screen_passwords scr)) true
-                                else set_pws (set_resp c r) (screen_passwords scr)) auth_ok) StInit, false)).
+    (env_of p, set_st (say (if (fvo <=? i)%Z then set_vo (set_pws (set_resp c r) (screen_passwords scr)) true
+                            else set_pws (set_resp c r) (screen_passwords scr)) TokOK auth_ok) StInit, false)).
   { unfold on_message. rewrite Hst. unfold on_response, password_check. rewrite Hpw. cbn [c_chal set_resp set_pws].
     rewrite Hi. reflexivity. }
   rewrite (deliver_one cfx p ci c scr r _ _ _ Hn Hs (or_intror (or_intror (or_introl Hst)))
@@ -1129,7 +1138,7 @@ Proof.
       rewrite (no_match_fixed pw (c_chal c) r Hl (Hno pw (or_introl eq_refl))). eauto. }
   destruct Hpc as [c1 Hpc]. rewrite Hpc. destruct (password_check_out _ _ _ _ _ _ Hpc) as [O1 _]. cbn in O1.
   eexists. split; [reflexivity|]. split; [reflexivity|].
-  destruct (7 <? c_minor c)%Z; cbn [c_out set_st add_out]; rewrite O1; [rewrite <- app_assoc|rewrite app_nil_r]; reflexivity.
+  destruct (7 <? c_minor c)%Z; cbn [c_out set_st add_out say]; rewrite O1; [rewrite <- app_assoc|rewrite app_nil_r]; reflexivity.
 Qed.
 
 (* type None: SecurityResult OK only for minor > 7 and not the 3.889 client, which instead gets
@@ -1193,7 +1202,7 @@ Lemma complete_fixed_33 : forall p0 s scr pw ver mi tr2 tr3 b,
             c_out c = server_version ++ be32 (Z.to_N c05_rfbSecTypeVncAuth) ++ ch ++ auth_ok ++ server_init scr.
 Proof.
   intros p0 s scr pw ver mi tr2 tr3 b Hb Hs Hpw Hin Hl Hv Hmi ci F2 F3 ch p3 p4 r Hr p5 p6 p7.
-  set (q := mkProc (p_hs p0) (p_screens p0) (p_conns p0 ++ [new_conn s false]) (p_rand p0) (p_err p0) (p_unmod p0)).
+  set (q := mkProc (p_hs p0) (p_screens p0) (p_conns p0 ++ [new_conn s false]) (p_rand p0) (p_err p0) (p_unmod p0) (p_udp p0) (p_input p0)).
   assert (Hp3 : p3 = step cfx q (OSend ci ver false)).
   { unfold p3. cbn [step]. rewrite Hs. reflexivity. }
   assert (Hq : nth_error (p_conns q) ci = Some (new_conn s false)).
@@ -1220,6 +1229,570 @@ Proof.
   repeat rewrite <- app_assoc. reflexivity.
 Qed.
 
+
+Lemma password_check_told : forall cf s c r b c1,
+  password_check cf s c r = (b, c1) -> c_told c1 = c_told c.
+Proof.
+  intros cf s c r b c1 H. unfold password_check in H. destruct (s_pw s) as [|pws fvo|content].
+  - injection H as <- <-. reflexivity.
+  - destruct (check_list cf pws (c_chal c) r 0); injection H as <- <-; [destruct (fvo <=? z)%Z|]; reflexivity.
+  - destruct (decrypt_passwd_file content); injection H as <- <-; reflexivity.
+Qed.
+
+(* ---------------------------------------------------------------- wire-level soundness
+   [c_told] records, in order, every SecurityResult OK / failed / ServerInit written to the client
+   ([say] appends the bytes to c_out and the token to c_told together).  Whoever has been TOLD that
+   authentication succeeded, or been GIVEN ServerInit, on a protected screen, has proved the
+   password - connections that were closed afterwards included. *)
+Definition settled (c : conn) : Prop := c_st c = StInit \/ c_st c = StNormal \/ c_st c = StClosed.
+
+Definition wire (s : screen) (c : conn) : Prop :=
+  (told_in c -> settled c) /\ (protected s c = true -> told_in c -> proved c).
+
+Lemma told_in_snoc_fail : forall l, (In TokOK (l ++ [TokFail]) \/ In TokSInit (l ++ [TokFail])) -> (In TokOK l \/ In TokSInit l).
+Proof.
+  intros l [H|H]; apply in_app_or in H; destruct H as [H|[H|[]]]; try discriminate H; auto.
+Qed.
+
+(* what one message does to the told-log: nothing, or a failure, or the client ends up granted *)
+Lemma on_message_told : forall s e c msg e' c' co,
+  on_message cfx s e c msg = (e', c', co) ->
+  c_told c' = c_told c \/ c_told c' = c_told c ++ [TokFail] \/ granted c' = true.
+Proof.
+  intros s e c msg e' c' co H. unfold on_message in H.
+  destruct (c_st c) eqn:Hst.
+  - destruct (on_version cfx s e c msg) as [e1 c1] eqn:E. injection H as <- <- <-.
+    unfold on_version in E. destruct (parse_version msg) as [[ma mi]|]; [|injection E as <- <-; left; reflexivity].
+    destruct (negb (ma =? c05_rfbProtocolMajorVersion)%Z); [injection E as <- <-; left; reflexivity|].
+    unfold auth_new_client in E. destruct (c_minor (set_minor c mi) <? 7)%Z.
+    + unfold send_type_33 in E.
+      destruct (primary_type s (set_minor c mi) =? c05_rfbSecTypeNone)%Z; [injection E as <- <-; left; reflexivity|].
+      unfold send_challenge in E. destruct (take_rand (e_rand e) (Z.to_nat c05_CHALLENGESIZE)). injection E as <- <-. left; reflexivity.
+    + unfold send_type_list in E.
+      destruct (offer_store (cfg_unreg_single cfx) (e_hs e) (primary_type s (set_minor c mi))); [|injection E as <- <-; left; reflexivity].
+      destruct (offer_types (htypes (cfg_ext cfx)) (cfg_global_check cfx) (primary_type s (set_minor c mi)) h);
+        injection E as <- <-; left; reflexivity.
+  - destruct msg as [|b msg]; [injection H as <- <- <-; left; reflexivity|].
+    unfold on_sectype in H.
+    destruct (hs_find LIST_FUEL (htypes (cfg_ext cfx)) (cfg_global_check cfx) (e_hs e) (h_head (e_hs e)) (Z.of_N b) (primary_type s c)) as [[| |k|]|].
+    + unfold send_challenge in H. destruct (take_rand (e_rand e) (Z.to_nat c05_CHALLENGESIZE)). injection H as <- <- <-. left; reflexivity.
+    + destruct (auth_none s c) as [c1 co1] eqn:Ea. injection H as <- <- <-. right. right.
+      unfold auth_none, client_init in Ea. destruct (c_minor c =? 889)%Z; injection Ea as <- <-; reflexivity.
+    + destruct (cfg_tight cfx && Nat.eqb k 2); injection H as <- <- <-; [|left; reflexivity].
+      unfold tight_start. destruct (has_password s && negb (c_rev c)); [left; reflexivity|right; right; reflexivity].
+    + injection H as <- <- <-. left; reflexivity.
+    + injection H as <- <- <-. left; reflexivity.
+  - destruct (on_tight_auth e c msg) as [e1 c1] eqn:E. injection H as <- <- <-.
+    unfold on_tight_auth in E. destruct (N.eqb (bytes_to_N msg) (Z.to_N c05_rfbSecTypeVncAuth)).
+    + unfold send_challenge in E. destruct (take_rand (e_rand e) (Z.to_nat c05_CHALLENGESIZE)). injection E as <- <-. left; reflexivity.
+    + injection E as <- <-. left; reflexivity.
+  - destruct (on_response cfx s e c msg) as [e1 c1] eqn:E. injection H as <- <- <-.
+    unfold on_response in E.
+    destruct (password_check cfx s (set_pws (set_resp c msg) (screen_passwords s)) msg) as [b c2] eqn:Ep.
+    pose proof (password_check_told _ _ _ _ _ _ Ep) as Ht. cbn in Ht.
+    destruct b; injection E as <- <-; [right; right; reflexivity|].
+    right. left. destruct (7 <? c_minor c)%Z; cbn; rewrite Ht; reflexivity.
+  - destruct (on_response cfx s e c msg) as [e1 c1] eqn:E. injection H as <- <- <-.
+    unfold on_response in E.
+    destruct (password_check cfx s (set_pws (set_resp c msg) (screen_passwords s)) msg) as [b c2] eqn:Ep.
+    pose proof (password_check_told _ _ _ _ _ _ Ep) as Ht. cbn in Ht.
+    destruct b; injection E as <- <-; [right; right; reflexivity|].
+    right. left. destruct (7 <? c_minor c)%Z; cbn; rewrite Ht; reflexivity.
+  - destruct msg as [|b msg]; [injection H as <- <- <-; left; reflexivity|].
+    injection H as <- <- <-. right. right. reflexivity.
+  - injection H as <- <- <-. left; reflexivity.
+  - injection H as <- <- <-. left; reflexivity.
+Qed.
+
+Lemma granted_settled : forall c, granted c = true -> settled c.
+Proof. intros c H. unfold granted in H. unfold settled. destruct (c_st c); try discriminate; auto. Qed.
+
+Lemma on_message_wire : forall s e c msg e' c' co,
+  on_message cfx s e c msg = (e', c', co) -> ok s c -> wire s c -> wire s c'.
+Proof.
+  intros s e c msg e' c' co H Hok [W1 W2].
+  destruct (on_message_ok _ _ _ _ _ _ _ H Hok) as [Hsame [Hok1 _]].
+  assert (Hp : protected s c' = protected s c) by (apply protected_same; exact Hsame).
+  (* connections that are already settled: only ClientInit does something *)
+  assert (Hset : settled c -> wire s c').
+  { intros [Hs|[Hs|Hs]]; unfold on_message in H; rewrite Hs in H.
+    - destruct msg as [|b msg]; [injection H as <- <- <-; split; assumption|].
+      injection H as <- <- <-. split; [intros _; right; left; reflexivity|].
+      intros Hpr _. assert (G : granted c = true) by (unfold granted; rewrite Hs; reflexivity).
+      destruct Hok as [Hg _]. destruct (Hg Hpr G) as [r [pw [A [B C]]]]. exists r, pw. cbn. auto.
+    - injection H as <- <- <-. split; assumption.
+    - injection H as <- <- <-. split; assumption. }
+  destruct (on_message_told _ _ _ _ _ _ _ H) as [Ht|[Ht|Hg]].
+  - (* told-log unchanged *)
+    assert (Hti : told_in c' <-> told_in c) by (unfold told_in; rewrite Ht; tauto).
+    split.
+    + intros T. apply Hti in T. exact (match Hset (W1 T) with conj a _ => a (proj2 Hti T) end).
+    + intros Hpr T. apply Hti in T. destruct (Hset (W1 T)) as [_ b]. apply b; [exact Hpr|apply Hti; exact T].
+  - assert (Hti : told_in c' -> told_in c) by (unfold told_in; rewrite Ht; apply told_in_snoc_fail).
+    split.
+    + intros T. pose proof (Hti T) as T0. destruct (Hset (W1 T0)) as [a _]. exact (a T).
+    + intros Hpr T. pose proof (Hti T) as T0. destruct (Hset (W1 T0)) as [_ b]. exact (b Hpr T).
+  - split; [intros _; apply granted_settled; exact Hg|].
+    intros Hpr _. apply Hok1; assumption.
+Qed.
+
+Lemma wire_closed : forall s c, wire s c -> wire s (set_st c StClosed).
+Proof.
+  intros s c [W1 W2]. split; [intros _; right; right; reflexivity|].
+  intros Hp T. destruct (W2 Hp T) as [r [pw [A [B C]]]]. exists r, pw. cbn. auto.
+Qed.
+
+Definition conn_okw (screens : list screen) (c : conn) : Prop :=
+  exists s, nth_error screens (c_screen c) = Some s /\ ok s c /\ wire s c.
+Definition invw (p : proc) : Prop := Forall (conn_okw (p_screens p)) (p_conns p).
+
+Lemma conn_okw_closed : forall scr c, conn_okw scr c -> conn_okw scr (set_st c StClosed).
+Proof. intros scr c [s [Hs [_ Hw]]]. exists s. split; [exact Hs|]. split; [apply ok_closed|apply wire_closed; exact Hw]. Qed.
+
+Lemma put_conn_invw : forall p e ci c co, invw p -> conn_okw (p_screens p) c -> invw (put_conn p e ci c co).
+Proof.
+  intros p e ci c co Hinv Hc. unfold invw, put_conn. cbn [p_screens p_conns].
+  destruct co.
+  - apply close_others_Forall; [apply conn_okw_closed|]. apply Forall_set_nth; assumption.
+  - apply Forall_set_nth; assumption.
+Qed.
+
+Lemma deliver_invw : forall fuel p ci buf eof, invw p -> invw (deliver fuel cfx p ci buf eof).
+Proof.
+  induction fuel as [|f IH]; intros p ci buf eof Hinv; cbn [deliver]; [exact Hinv|].
+  destruct (nth_error (p_conns p) ci) as [c|] eqn:Hn; [|exact Hinv].
+  assert (Hc : conn_okw (p_screens p) c).
+  { unfold invw in Hinv. rewrite Forall_forall in Hinv. apply Hinv. eapply nth_error_In. exact Hn. }
+  assert (Hclose : invw (put_conn p (env_of p) ci (set_st c StClosed) false))
+    by (apply put_conn_invw; [exact Hinv|apply conn_okw_closed; exact Hc]).
+  assert (Hround : forall st, c_st c = st ->
+    invw (match buf with
+         | [] => if eof || blocking st then put_conn p (env_of p) ci (set_st c StClosed) false else p
+         | _ :: _ =>
+           if Nat.ltb (length buf) (msg_len st) then put_conn p (env_of p) ci (set_st c StClosed) false
+           else
+             match nth_error (p_screens p) (c_screen c) with
+             | None => flag_err p
+             | Some s =>
+                 let (y, co) := on_message cfx s (env_of p) c (firstn (msg_len st) buf) in
+                 let (e', c') := y in
+                 match msg_len st with
+                 | O => flag_err p
+                 | S _ => deliver f cfx (put_conn p e' ci c' co) ci (skipn (msg_len st) buf) eof
+                 end
+             end
+         end)).
+  { intros st Hst.
+    destruct buf as [|b buf]; [destruct (eof || blocking st); [exact Hclose|exact Hinv]|].
+    destruct (Nat.ltb (length (b :: buf)) (msg_len st)); [exact Hclose|].
+    destruct Hc as [s [Hs [Hok Hw]]]. rewrite Hs.
+    destruct (on_message cfx s (env_of p) c (firstn (msg_len st) (b :: buf))) as [[e' c'] co] eqn:Eo.
+    destruct (on_message_ok _ _ _ _ _ _ _ Eo Hok) as [[Hs1 Hs2] Hok'].
+    pose proof (on_message_wire _ _ _ _ _ _ _ Eo Hok Hw) as Hw'.
+    destruct (msg_len st); [exact Hinv|].
+    apply IH. apply put_conn_invw; [exact Hinv|]. exists s. split; [rewrite Hs1; exact Hs|]. split; assumption. }
+  destruct (c_st c) eqn:Hst.
+  - exact (Hround StPV eq_refl).
+  - exact (Hround StSec eq_refl).
+  - exact (Hround StTAuth eq_refl).
+  - exact (Hround StTResp eq_refl).
+  - exact (Hround StAuth eq_refl).
+  - exact (Hround StInit eq_refl).
+  - destruct buf; [|exact Hinv]. destruct eof; [exact Hclose|exact Hinv].
+  - exact Hinv.
+Qed.
+
+Lemma step_invw : forall p o, invw p -> invw (step cfx p o).
+Proof.
+  intros p o Hinv. destruct o as [s|k|k|b|s rev bytes eof|c bytes eof|s content|s|s ubytes]; cbn [step].
+  - unfold invw in *. cbn [p_screens p_conns]. eapply Forall_impl; [|exact Hinv].
+    intros c [s0 [Hs Hr]]. exists s0. split; [|exact Hr].
+    rewrite nth_error_app1; [exact Hs|]. apply nth_error_Some. congruence.
+  - destruct (is_ext k); [destruct (hs_register REC_FUEL (p_hs p) (Some k))|]; exact Hinv.
+  - destruct (is_ext k); [destruct (hs_unregister REC_FUEL _ (p_hs p) (Some k))|]; exact Hinv.
+  - exact Hinv.
+  - destruct (nth_error (p_screens p) s) as [scr|] eqn:Hs; [|exact Hinv].
+    apply deliver_invw. unfold invw in *. cbn [p_screens p_conns]. apply Forall_app. split; [exact Hinv|].
+    constructor; [|constructor]. exists scr. split; [exact Hs|]. split; [apply ok_idle; cbn; congruence|].
+    split; [intros [[]|[]]|intros _ [[]|[]]].
+  - apply deliver_invw. exact Hinv.
+  - destruct (nth_error (p_screens p) s) as [scr|] eqn:Hs; [|exact Hinv].
+    destruct (s_pw scr) as [| |old] eqn:Hpw; try exact Hinv.
+    unfold invw in *. cbn [p_screens p_conns]. eapply Forall_impl; [|exact Hinv].
+    intros c [s0 [Hs0 [Hok Hw]]]. destruct (Nat.eq_dec (c_screen c) s) as [E|E].
+    + rewrite E in Hs0. rewrite Hs in Hs0. injection Hs0 as <-.
+      eexists. split; [rewrite E; apply nth_error_set_nth_eq; apply nth_error_Some; congruence|].
+      assert (Hp : forall x, protected (mkScreen (PwFile content) (s_w scr) (s_h scr) (s_name scr)) x = protected scr x).
+      { intros x. unfold protected, has_password. cbn [s_pw]. rewrite Hpw. reflexivity. }
+      split.
+      * destruct Hok as [H1 H2]. split; [|exact H2]. intros Hpr. apply H1. rewrite <- Hp. exact Hpr.
+      * destruct Hw as [W1 W2]. split; [exact W1|]. intros Hpr. apply W2. rewrite <- Hp. exact Hpr.
+    + exists s0. split; [rewrite nth_error_set_nth_neq by congruence; exact Hs0|]. split; assumption.
+  - destruct (nth_error (p_screens p) s); exact Hinv.
+  - destruct (nth_error (p_screens p) s) as [scr|]; [|exact Hinv].
+    match goal with |- context [if ?b then _ else _] => destruct b end; exact Hinv.
+Qed.
+
+Lemma sound_wire_fixed : forall ops c s,
+  let p := run cfx proc_init ops in
+  In c (p_conns p) -> nth_error (p_screens p) (c_screen c) = Some s ->
+  protected s c = true -> told_in c -> proved c.
+Proof.
+  intros ops c s p Hin Hs Hp Ht.
+  assert (H : invw p).
+  { unfold p, run. assert (G : forall l q, invw q -> invw (fold_left (step cfx) l q)).
+    { induction l as [|o l IH]; intros q Hq; cbn; [exact Hq|]. apply IH. apply step_invw. exact Hq. }
+    apply G. constructor. }
+  unfold invw in H. rewrite Forall_forall in H. destruct (H c Hin) as [s' [Hs' [_ [_ W2]]]].
+  rewrite Hs in Hs'. injection Hs' as <-. apply W2; assumption.
+Qed.
+
+(* the told-log and the wire are written together *)
+Lemma say_coupled : forall c t b, c_out (say c t b) = c_out c ++ b /\ c_told (say c t b) = c_told c ++ [t].
+Proof. intros. split; reflexivity. Qed.
+
+(* ---------------------------------------------------------------- TightVNC nested negotiation: completeness *)
+Lemma deliver_cons : forall f cf p ci c s buf eof e' c' co,
+  nth_error (p_conns p) ci = Some c -> nth_error (p_screens p) (c_screen c) = Some s ->
+  c_st c <> StNormal -> c_st c <> StClosed -> (exists k, msg_len (c_st c) = S k) ->
+  (msg_len (c_st c) <= length buf)%nat ->
+  on_message cf s (env_of p) c (firstn (msg_len (c_st c)) buf) = (e', c', co) ->
+  deliver (S f) cf p ci buf eof = deliver f cf (put_conn p e' ci c' co) ci (skipn (msg_len (c_st c)) buf) eof.
+Proof.
+  intros f cf p ci c s buf eof e' c' co Hn Hs Hnn Hnc [k Hk] Hl Ho. cbn [deliver]. rewrite Hn.
+  destruct buf as [|b buf]; [rewrite Hk in Hl; cbn in Hl; lia|].
+  assert (Hlt : Nat.ltb (length (b :: buf)) (msg_len (c_st c)) = false) by (apply Nat.ltb_ge; exact Hl).
+  destruct (c_st c) eqn:Hst; try contradiction; rewrite Hlt, Hs, Ho, Hk; reflexivity.
+Qed.
+
+(* On a protected screen with the library's TightVNC handler registered (the lookup of type 16 finds
+   it), for EVERY configured password, challenge, protocol minor version and process state: a client
+   that sends type 16, authentication type VNC and the DES response in one write is told OK. *)
+Lemma tight_complete : forall p ci c scr pw r,
+  tight = true ->
+  nth_error (p_conns p) ci = Some c -> nth_error (p_screens p) (c_screen c) = Some scr ->
+  c_st c = StSec -> protected scr c = true ->
+  hs_find LIST_FUEL (htypes ext) false (p_hs p) (h_head (p_hs p)) 16 (primary_type scr c) = Some (HExt 2) ->
+  In pw (screen_passwords scr) ->
+  let ch := fst (take_rand (p_rand p) 16) in
+  vnc_encrypt pw ch = Some r ->
+  let p' := step cfx p (OSend ci ([16%N] ++ be32 (Z.to_N c05_rfbSecTypeVncAuth) ++ r) false) in
+  exists c', nth_error (p_conns p') ci = Some c' /\ c_st c' = StInit /\ told_in c' /\ c_resp c' = Some r /\
+             c_out c' = c_out c ++ be32 0 ++ (be32 1 ++ tight_vnc_cap) ++ ch ++ auth_ok.
+Proof.
+  intros p ci c scr pw r Ht Hn Hs Hst Hp Hfind Hin ch Hr. cbv zeta. rewrite step_send.
+  assert (Hch : length ch = 16%nat) by (apply take_rand_length).
+  assert (Hr16 : length r = 16%nat).
+  { destruct (vnc_encrypt_some pw ch Hch) as [r' [E L]]. congruence. }
+  set (buf := [16%N] ++ be32 (Z.to_N c05_rfbSecTypeVncAuth) ++ r).
+  assert (Hlen : length buf = 21%nat) by (unfold buf; rewrite !app_length, Hr16; reflexivity).
+  rewrite Hlen.
+  (* 1. the type byte *)
+  set (c1 := set_st (add_out (add_out c (be32 0)) (be32 1 ++ tight_vnc_cap)) StTAuth).
+  assert (Ho1 : on_message cfx scr (env_of p) c (firstn (msg_len (c_st c)) buf) = (env_of p, c1, false)).
+  { rewrite Hst. unfold on_message. rewrite Hst. cbn [msg_len firstn buf app].
+    unfold on_sectype. cbn [cfgF cfg_global_check cfg_ext cfg_tight env_of e_hs]. change (Z.of_N 16) with 16%Z.
+    rewrite Hfind, Ht. cbn [andb Nat.eqb]. unfold tight_start. fold (protected scr c). rewrite Hp. reflexivity. }
+  rewrite (deliver_cons 21 cfx p ci c scr buf false _ _ _ Hn Hs ltac:(rewrite Hst; discriminate) ltac:(rewrite Hst; discriminate)
+             ltac:(rewrite Hst; vm_compute; eexists; reflexivity) ltac:(rewrite Hst, Hlen; vm_compute; lia) Ho1).
+  rewrite Hst. change (skipn (msg_len StSec) buf) with (be32 (Z.to_N c05_rfbSecTypeVncAuth) ++ r).
+  (* 2. the authentication type *)
+  set (p1 := put_conn p (env_of p) ci c1 false).
+  assert (Hn1 : nth_error (p_conns p1) ci = Some c1) by (eapply put_conn_nth_self; exact Hn).
+  assert (Hs1 : nth_error (p_screens p1) (c_screen c1) = Some scr) by exact Hs.
+  set (c2 := set_st (set_st (add_out (set_sent (set_chal c1 ch) ch) ch) StAuth) StTResp).
+  assert (Ho2 : on_message cfx scr (env_of p1) c1 (firstn (msg_len (c_st c1)) (be32 (Z.to_N c05_rfbSecTypeVncAuth) ++ r)) =
+                (mkEnv (p_hs p) (snd (take_rand (p_rand p) 16)) (p_err p), c2, false)).
+  { cbn [c_st c1 set_st msg_len]. change (firstn 4 (be32 (Z.to_N c05_rfbSecTypeVncAuth) ++ r)) with (be32 (Z.to_N c05_rfbSecTypeVncAuth)).
+    unfold on_message. cbn [c_st c1 set_st]. unfold on_tight_auth.
+    change (N.eqb (bytes_to_N (be32 (Z.to_N c05_rfbSecTypeVncAuth))) (Z.to_N c05_rfbSecTypeVncAuth)) with true. cbv iota.
+    unfold send_challenge, p1, env_of. cbn [e_rand e_hs e_err put_conn p_rand p_hs p_err].
+    change (Z.to_nat c05_CHALLENGESIZE) with 16%nat. unfold c2, ch.
+    destruct (take_rand (p_rand p) 16) as [ch0 rest]. reflexivity. }
+  rewrite (deliver_cons 20 cfx p1 ci c1 scr (be32 (Z.to_N c05_rfbSecTypeVncAuth) ++ r) false _ _ _ Hn1 Hs1 ltac:(discriminate) ltac:(discriminate)
+             ltac:(vm_compute; eexists; reflexivity) ltac:(cbn [c_st c1 set_st msg_len]; rewrite app_length, Hr16; vm_compute; lia) Ho2).
+  cbn [c_st c1 set_st msg_len]. change (skipn 4 (be32 (Z.to_N c05_rfbSecTypeVncAuth) ++ r)) with r.
+  (* 3. the response *)
+  set (p2 := put_conn p1 (mkEnv (p_hs p) (snd (take_rand (p_rand p) 16)) (p_err p)) ci c2 false).
+  assert (Hn2 : nth_error (p_conns p2) ci = Some c2) by (eapply put_conn_nth_self; exact Hn1).
+  assert (Hs2 : nth_error (p_screens p2) (c_screen c2) = Some scr) by exact Hs.
+  assert (Hmatch : bytes_eqb (encrypt_bytes cfx pw ch) r = true).
+  { pose proof (encrypt_bytes_fixed pw ch Hch) as E. rewrite Hr in E. injection E as <-. apply bytes_eqb_refl. }
+  assert (Hpc : exists c3, password_check cfx scr (set_pws (set_resp c2 r) (screen_passwords scr)) r = (true, c3) /\
+                  c_out c3 = c_out c2 /\ c_resp c3 = Some r /\ c_told c3 = c_told c2).
+  { unfold password_check, screen_passwords in *. destruct (s_pw scr) as [|pws fvo|content].
+    - contradiction.
+    - cbn [c_chal set_resp set_pws c2 set_st set_chal add_out set_sent].
+      destruct (check_list_complete cfx pws ch r pw 0%Z Hin Hmatch) as [i Hi].
+      rewrite Hi. eexists. split; [reflexivity|]. destruct (fvo <=? i)%Z; repeat split.
+    - destruct (decrypt_passwd_file content) as [pw'|]; [|contradiction].
+      destruct Hin as [<-|[]]. cbn [c_chal set_resp set_pws c2 set_st set_chal add_out set_sent]. rewrite Hmatch.
+      eexists. split; [reflexivity|]. repeat split. }
+  destruct Hpc as [c3 [Hpc [O3 [R3 T3]]]].
+  assert (Ho3 : on_message cfx scr (env_of p2) c2 (firstn (msg_len (c_st c2)) r) = (env_of p2, set_st (say c3 TokOK auth_ok) StInit, false)).
+  { cbn [c_st c2 set_st msg_len]. change (Z.to_nat c05_CHALLENGESIZE) with 16%nat. rewrite <- Hr16, firstn_all.
+    unfold on_message. cbn [c_st c2 set_st]. unfold on_response. rewrite Hpc. reflexivity. }
+  rewrite (deliver_cons 19 cfx p2 ci c2 scr r false _ _ _ Hn2 Hs2 ltac:(discriminate) ltac:(discriminate)
+             ltac:(vm_compute; eexists; reflexivity) ltac:(cbn [c_st c2 set_st msg_len]; rewrite Hr16; vm_compute; lia) Ho3).
+  cbn [c_st c2 set_st msg_len]. change (Z.to_nat c05_CHALLENGESIZE) with 16%nat. rewrite <- Hr16, skipn_all.
+  erewrite deliver_nil; [|eapply put_conn_nth_self; exact Hn2|reflexivity].
+  eexists. split; [eapply put_conn_nth_self; exact Hn2|]. split; [reflexivity|]. split.
+  { left. cbn. apply in_or_app. right. left. reflexivity. }
+  split; [cbn; exact R3|].
+  cbn [c_out set_st say]. rewrite O3. cbn [c2 c1 c_out set_st add_out set_sent set_chal].
+  repeat rewrite <- app_assoc. reflexivity.
+Qed.
+
+(* ---------------------------------------------------------------- UDP input channel
+   With notes/fix_C05_4.diff (cfg_udp_gated, which cfgF has) no input event reaches the application
+   through the UDP channel of a screen that requires a password - whatever else happens. *)
+Definition input_ok (p : proc) : Prop :=
+  forall s, In s (p_input p) -> exists scr, nth_error (p_screens p) s = Some scr /\ has_password scr = false.
+
+Lemma deliver_udp_fields : forall fuel cf p ci buf eof,
+  p_input (deliver fuel cf p ci buf eof) = p_input p /\ p_udp (deliver fuel cf p ci buf eof) = p_udp p /\
+  p_screens (deliver fuel cf p ci buf eof) = p_screens p.
+Proof.
+  induction fuel as [|f IH]; intros cf p ci buf eof; cbn [deliver]; [repeat split; reflexivity|].
+  destruct (nth_error (p_conns p) ci) as [c|]; [|repeat split; reflexivity].
+  assert (R : forall st,
+    let p' := match buf with
+         | [] => if eof || blocking st then put_conn p (env_of p) ci (set_st c StClosed) false else p
+         | _ :: _ =>
+           if Nat.ltb (length buf) (msg_len st) then put_conn p (env_of p) ci (set_st c StClosed) false
+           else
+             match nth_error (p_screens p) (c_screen c) with
+             | None => flag_err p
+             | Some s =>
+                 let (y, co) := on_message cf s (env_of p) c (firstn (msg_len st) buf) in
+                 let (e', c') := y in
+                 match msg_len st with
+                 | O => flag_err p
+                 | S _ => deliver f cf (put_conn p e' ci c' co) ci (skipn (msg_len st) buf) eof
+                 end
+             end
+         end in p_input p' = p_input p /\ p_udp p' = p_udp p /\ p_screens p' = p_screens p).
+  { intros st. cbv zeta. destruct buf as [|b buf]; [destruct (eof || blocking st); repeat split; reflexivity|].
+    destruct (Nat.ltb (length (b :: buf)) (msg_len st)); [repeat split; reflexivity|].
+    destruct (nth_error (p_screens p) (c_screen c)) as [s|]; [|repeat split; reflexivity].
+    destruct (on_message cf s (env_of p) c (firstn (msg_len st) (b :: buf))) as [[e' c'] co].
+    destruct (msg_len st) as [|n0]; [repeat split; reflexivity|].
+    destruct (IH cf (put_conn p e' ci c' co) ci (skipn (S n0) (b :: buf)) eof) as [A [B C]].
+    rewrite A, B, C. repeat split; reflexivity. }
+  destruct (c_st c); try apply R; try (repeat split; reflexivity).
+  destruct buf; [destruct eof|]; repeat split; reflexivity.
+Qed.
+
+Lemma step_input_ok : forall p o, input_ok p -> input_ok (step cfx p o).
+Proof.
+  intros p o H. destruct o as [s0|k|k|b|s0 rev bytes eof|cj bytes eof|s0 content|s0|s0 ubytes]; cbn [step].
+  - intros s1 Hs. destruct (H s1 Hs) as [scr [A B]]. exists scr. split; [|exact B]. cbn [p_screens].
+    rewrite nth_error_app1; [exact A|]. apply nth_error_Some. congruence.
+  - destruct (is_ext k); [destruct (hs_register REC_FUEL (p_hs p) (Some k))|]; exact H.
+  - destruct (is_ext k); [destruct (hs_unregister REC_FUEL _ (p_hs p) (Some k))|]; exact H.
+  - exact H.
+  - destruct (nth_error (p_screens p) s0); [|exact H].
+    intros s1 Hs. destruct (deliver_udp_fields (S (length bytes)) cfx
+      (mkProc (p_hs p) (p_screens p) (p_conns p ++ [new_conn s0 rev]) (p_rand p) (p_err p) (p_unmod p) (p_udp p) (p_input p))
+      (length (p_conns p)) bytes eof) as [A [_ S]].
+    rewrite A in Hs. rewrite S. exact (H s1 Hs).
+  - intros s1 Hs. destruct (deliver_udp_fields (S (length bytes)) cfx p cj bytes eof) as [A [_ S]].
+    rewrite A in Hs. rewrite S. exact (H s1 Hs).
+  - destruct (nth_error (p_screens p) s0) as [scr0|] eqn:E0; [|exact H].
+    destruct (s_pw scr0) eqn:Epw; try exact H.
+    intros s1 Hs. cbn [p_input p_screens] in *. destruct (H s1 Hs) as [scr [A B]].
+    destruct (Nat.eq_dec s1 s0) as [->|Hne].
+    + rewrite E0 in A. injection A as <-. unfold has_password in B. rewrite Epw in B. discriminate.
+    + exists scr. split; [rewrite nth_error_set_nth_neq by congruence; exact A|exact B].
+  - destruct (nth_error (p_screens p) s0); exact H.
+  - destruct (nth_error (p_screens p) s0) as [scr0|] eqn:E0; [|exact H].
+    destruct (existsb (Nat.eqb s0) (p_udp p) && udp_wellformed ubytes) eqn:Ew; cbn [andb]; [|exact H].
+    cbn [cfgF cfg_udp_gated andb]. destruct (has_password scr0) eqn:Ep; cbn [negb]; [exact H|].
+    intros s1 Hs. cbn [p_input p_screens] in *. apply in_app_or in Hs. destruct Hs as [Hs|[<-|[]]].
+    + exact (H s1 Hs).
+    + exists scr0. split; assumption.
+Qed.
+
+Lemma udp_gated_fixed : forall ops s scr,
+  let p := run cfx proc_init ops in
+  In s (p_input p) -> nth_error (p_screens p) s = Some scr -> has_password scr = false.
+Proof.
+  intros ops s scr p Hin Hs.
+  assert (H : input_ok p).
+  { unfold p, run. assert (G : forall l q, input_ok q -> input_ok (fold_left (step cfx) l q)).
+    { induction l as [|o l IH]; intros q Hq; cbn; [exact Hq|]. apply IH. apply step_input_ok. exact Hq. }
+    apply G. intros s0 [] . }
+  destruct (H s Hin) as [scr' [A B]]. rewrite Hs in A. injection A as <-. exact B.
+Qed.
+
+(* ---------------------------------------------------------------- the error flag is never raised
+   [p_err] is set when a list operation of the mirror runs out of fuel or an index is out of range;
+   the mirror then closes the client, which C would not do.  On every trace whose operations name
+   existing screens / connections / application handler objects (and with four application handler
+   types) this never happens: soundness is not obtained "by totalisation". *)
+Definition op_valid (p : proc) (o : op) : Prop :=
+  match o with
+  | OReg k | OUnreg k => is_ext k = true
+  | OConn s _ _ _ | OUdpOn s | OUdp s _ => (s < length (p_screens p))%nat
+  | OSend c _ _ => (c < length (p_conns p))%nat
+  | OSetFile s _ => exists scr c0, nth_error (p_screens p) s = Some scr /\ s_pw scr = PwFile c0
+  | _ => True
+  end.
+
+Fixpoint valid_run (cf : cfg) (p : proc) (ops : list op) : Prop :=
+  match ops with
+  | [] => True
+  | o :: r => op_valid p o /\ valid_run cf (step cf p o) r
+  end.
+
+Lemma hs_find_total : forall f tys legacy st cur chosen primary,
+  hs_member f st cur 99 = Some false -> length tys = length (h_next st) ->
+  forall fuel, (f <= fuel)%nat -> hs_find fuel tys legacy st cur chosen primary <> None.
+Proof.
+  induction f as [|f IH]; intros tys legacy st cur chosen primary Hm Hlen fuel Hf; cbn [hs_member] in Hm; [discriminate|].
+  destruct fuel as [|fuel]; [lia|]. cbn [hs_find].
+  destruct cur as [c|]; [|discriminate].
+  destruct (Nat.eqb c 99); [discriminate|].
+  destruct (nth_error (h_next st) c) as [nx|] eqn:En; [|discriminate].
+  assert (Hc : (c < length tys)%nat) by (rewrite Hlen; apply nth_error_Some; congruence).
+  destruct (nth_error tys c) as [t|] eqn:Et; [|apply nth_error_None in Et; lia].
+  destruct (Z.eqb t chosen && (legacy || negb (is_builtin c) || Z.eqb chosen primary)); [discriminate|].
+  apply (IH tys legacy st nx chosen primary Hm Hlen fuel). lia.
+Qed.
+
+Lemma on_message_no_err : forall s e c msg e' c' co,
+  on_message cfx s e c msg = (e', c', co) -> acyc (e_hs e) = true -> length ext = 4%nat ->
+  msg <> [] -> e_err e = false -> e_err e' = false.
+Proof.
+  intros s e c msg e' c' co H Ha Hext Hm He. unfold on_message in H.
+  assert (Hlen : forall st, acyc st = true -> length (htypes ext) = length (h_next st)).
+  { intros st Hs. rewrite (acyc_length st Hs). cbn [htypes length]. rewrite Hext. reflexivity. }
+  destruct (c_st c).
+  - destruct (on_version cfx s e c msg) as [e1 c1] eqn:E. injection H as <- <- <-.
+    unfold on_version in E. destruct (parse_version msg) as [[ma mi]|]; [|injection E as <- <-; exact He].
+    destruct (negb (ma =? c05_rfbProtocolMajorVersion)%Z); [injection E as <- <-; exact He|].
+    unfold auth_new_client in E. destruct (c_minor (set_minor c mi) <? 7)%Z.
+    + unfold send_type_33 in E.
+      destruct (primary_type s (set_minor c mi) =? c05_rfbSecTypeNone)%Z; [injection E as <- <-; exact He|].
+      unfold send_challenge in E. destruct (take_rand (e_rand e) (Z.to_nat c05_CHALLENGESIZE)). injection E as <- <-. exact He.
+    + destruct (send_type_list_acyc e (set_minor c mi) _ Ha (is_prim_primary s (set_minor c mi)) Hext) as [st' [tl [_ [_ Heq]]]].
+      rewrite Heq in E. injection E as <- <-. exact He.
+  - destruct msg as [|b msg]; [contradiction|].
+    unfold on_sectype in H. cbn [cfgF cfg_global_check cfg_ext] in H.
+    pose proof (hs_find_total LIST_FUEL (htypes ext) false (e_hs e) (h_head (e_hs e)) (Z.of_N b) (primary_type s c)
+                  (acyc_list_ok _ Ha) (Hlen _ Ha) LIST_FUEL (le_n _)) as Hf.
+    destruct (hs_find LIST_FUEL (htypes ext) false (e_hs e) (h_head (e_hs e)) (Z.of_N b) (primary_type s c)) as [[| |k|]|]; [| | | |contradiction].
+    + unfold send_challenge in H. destruct (take_rand (e_rand e) (Z.to_nat c05_CHALLENGESIZE)). injection H as <- <- <-. exact He.
+    + destruct (auth_none s c). injection H as <- <- <-. exact He.
+    + destruct (cfg_tight (cfgF single ext tight) && Nat.eqb k 2); injection H as <- <- <-; exact He.
+    + injection H as <- <- <-. exact He.
+  - destruct (on_tight_auth e c msg) as [e1 c1] eqn:E. injection H as <- <- <-.
+    unfold on_tight_auth in E. destruct (N.eqb (bytes_to_N msg) (Z.to_N c05_rfbSecTypeVncAuth)).
+    + unfold send_challenge in E. destruct (take_rand (e_rand e) (Z.to_nat c05_CHALLENGESIZE)). injection E as <- <-. exact He.
+    + injection E as <- <-. exact He.
+  - destruct (on_response cfx s e c msg) as [e1 c1] eqn:E. injection H as <- <- <-.
+    unfold on_response in E.
+    destruct (password_check cfx s (set_pws (set_resp c msg) (screen_passwords s)) msg) as [[|] c2]; injection E as <- <-; exact He.
+  - destruct (on_response cfx s e c msg) as [e1 c1] eqn:E. injection H as <- <- <-.
+    unfold on_response in E.
+    destruct (password_check cfx s (set_pws (set_resp c msg) (screen_passwords s)) msg) as [[|] c2]; injection E as <- <-; exact He.
+  - destruct msg as [|b msg]; [contradiction|]. destruct (client_init s c b). injection H as <- <- <-. exact He.
+  - injection H as <- <- <-. exact He.
+  - injection H as <- <- <-. exact He.
+Qed.
+
+Lemma put_conn_length : forall p e ci c co, length (p_conns (put_conn p e ci c co)) = length (p_conns p).
+Proof.
+  intros. unfold put_conn. cbn [p_conns]. destruct co; [|apply set_nth_length].
+  unfold close_others. generalize 0%nat. rewrite <- (set_nth_length _ (p_conns p) ci c).
+  induction (set_nth (p_conns p) ci c) as [|x l IH]; intros n; cbn; [reflexivity|]. rewrite IH. reflexivity.
+Qed.
+
+Lemma deliver_no_err : forall fuel p ci buf eof,
+  inv p -> acyc (p_hs p) = true -> length ext = 4%nat -> p_err p = false ->
+  (ci < length (p_conns p))%nat -> (length buf < fuel)%nat ->
+  p_err (deliver fuel cfx p ci buf eof) = false.
+Proof.
+  induction fuel as [|f IH]; intros p ci buf eof Hinv Ha Hext He Hci Hf; [lia|]. cbn [deliver].
+  destruct (nth_error (p_conns p) ci) as [c|] eqn:Hn; [|apply nth_error_None in Hn; lia].
+  destruct (inv_nth _ _ _ Hinv Hn) as [s [Hs Hok]].
+  assert (R : forall st, c_st c = st -> (exists k, msg_len st = S k) ->
+    p_err (match buf with
+         | [] => if eof || blocking st then put_conn p (env_of p) ci (set_st c StClosed) false else p
+         | _ :: _ =>
+           if Nat.ltb (length buf) (msg_len st) then put_conn p (env_of p) ci (set_st c StClosed) false
+           else
+             match nth_error (p_screens p) (c_screen c) with
+             | None => flag_err p
+             | Some s =>
+                 let (y, co) := on_message cfx s (env_of p) c (firstn (msg_len st) buf) in
+                 let (e', c') := y in
+                 match msg_len st with
+                 | O => flag_err p
+                 | S _ => deliver f cfx (put_conn p e' ci c' co) ci (skipn (msg_len st) buf) eof
+                 end
+             end
+         end) = false).
+  { intros st Hst [k Hk]. destruct buf as [|b buf]; [destruct (eof || blocking st); exact He|].
+    destruct (Nat.ltb (length (b :: buf)) (msg_len st)) eqn:El; [exact He|]. apply Nat.ltb_ge in El.
+    rewrite Hs.
+    destruct (on_message cfx s (env_of p) c (firstn (msg_len st) (b :: buf))) as [[e' c'] co] eqn:Eo.
+    rewrite Hk. rewrite <- Hk.
+    assert (Hne : firstn (msg_len st) (b :: buf) <> []) by (rewrite Hk; cbn; discriminate).
+    pose proof (on_message_no_err _ _ _ _ _ _ _ Eo Ha Hext Hne He) as He'.
+    pose proof (on_message_acyc _ _ _ _ _ _ _ _ Eo Ha) as Ha'.
+    destruct (on_message_ok _ _ _ _ _ _ _ Eo Hok) as [[S1 S2] Hok'].
+    apply IH.
+    - apply put_conn_inv; [exact Hinv|]. exists s. split; [rewrite S1; exact Hs|exact Hok'].
+    - exact Ha'.
+    - exact Hext.
+    - exact He'.
+    - rewrite put_conn_length. exact Hci.
+    - rewrite skipn_length, Hk. cbn [length] in *. lia. }
+  destruct (c_st c) eqn:Hst; try (apply R; [reflexivity|vm_compute; eexists; reflexivity]).
+  - destruct buf; [destruct eof|]; exact He.
+  - exact He.
+Qed.
+
+Lemma step_no_err : forall p o,
+  inv p -> acyc (p_hs p) = true -> length ext = 4%nat -> p_err p = false -> op_valid p o ->
+  p_err (step cfx p o) = false.
+Proof.
+  intros p o Hinv Ha Hext He Hv.
+  destruct o as [s0|k|k|b|s0 rev bytes eof|cj bytes eof|s0 content|s0|s0 ubytes]; cbn [step op_valid] in *.
+  - exact He.
+  - rewrite Hv. destruct (acyc_register (p_hs p) k Ha Hv) as [st' [-> _]]. exact He.
+  - rewrite Hv. destruct (acyc_unregister (cfg_unreg_single cfx) (p_hs p) k Ha Hv) as [st' [-> _]]. exact He.
+  - exact He.
+  - destruct (nth_error (p_screens p) s0) as [scr|] eqn:Hs; [|apply nth_error_None in Hs; lia].
+    apply deliver_no_err; cbn [p_hs p_err p_conns p_screens]; try assumption.
+    + unfold inv in *. cbn [p_screens p_conns]. apply Forall_app. split; [exact Hinv|].
+      constructor; [|constructor]. exists scr. split; [exact Hs|]. apply ok_idle; cbn; congruence.
+    + rewrite app_length. cbn. lia.
+    + lia.
+  - apply deliver_no_err; try assumption. lia.
+  - destruct Hv as [scr [c0 [-> ->]]]. exact He.
+  - destruct (nth_error (p_screens p) s0) eqn:Hs; [exact He|apply nth_error_None in Hs; lia].
+  - destruct (nth_error (p_screens p) s0) as [scr|] eqn:Hs; [|apply nth_error_None in Hs; lia].
+    match goal with |- context [if ?b then _ else _] => destruct b end; exact He.
+Qed.
+
+Lemma run_no_err : forall ops p,
+  inv p -> acyc (p_hs p) = true -> length ext = 4%nat -> p_err p = false -> valid_run cfx p ops ->
+  p_err (run cfx p ops) = false.
+Proof.
+  induction ops as [|o ops IH]; intros p Hinv Ha Hext He Hv; cbn [run fold_left]; [exact He|].
+  destruct Hv as [Hv1 Hv2]. apply IH.
+  - apply step_inv. exact Hinv.
+  - apply step_acyc. exact Ha.
+  - exact Hext.
+  - apply step_no_err; assumption.
+  - exact Hv2.
+Qed.
+
+Lemma no_err_fixed : forall ops, length ext = 4%nat -> valid_run cfx proc_init ops ->
+  p_err (run cfx proc_init ops) = false.
+Proof. intros ops Hext Hv. apply run_no_err; try assumption; [apply inv_init|apply acyc_init|reflexivity]. Qed.
 
 End Fixed.
 
